@@ -3,7 +3,7 @@
 use crate::ctx::{hex_short, lc, Case, Ctx, Tier};
 use crate::gen;
 use crate::oracle::{classify, Out};
-use crate::refenc::{self, ACh, AHs, ASh, W};
+use crate::refenc::{self, ACh, AHs, ASh, HS_VARIANTS, W};
 use crate::rng::Rng;
 use crate::visit::{first_outside, Slices};
 use serde_json::json;
@@ -348,6 +348,41 @@ pub fn run(ctx: &mut Ctx) {
         };
         roundtrip(ctx, &v, &[0x5a], ":max-count");
         ctx.count("max-count.messages");
+    });
+
+
+    // ------------------------------------------------ each variant at the start of a buffer longer than 4 GiB (lazily mapped zeros)
+    ctx.sweep("four-gib-buffer", 1, |ctx, _| {
+        let mut r = Rng::new(0x4_0000_0004);
+        let mut big = match gen::lazy_zeroed((1usize << 32) + 8192) {
+            Some(b) => b,
+            None => {
+                ctx.note("4 GiB reservation refused by the platform: four-gib-buffer cases skipped".into());
+                ctx.unjudged("four-gib-buffer-skipped");
+                return;
+            }
+        };
+        ctx.floor("4gib.cases", 17);
+        for variant in 0..HS_VARIANTS {
+            let v = gen::hs_variant(&mut r, gen::TINY, variant);
+            let enc = v.to_bytes();
+            for z in big[..4096].iter_mut() {
+                *z = 0;
+            }
+            big[..enc.len()].copy_from_slice(&enc);
+            let exp = TlsMessage::Handshake(v.expected());
+            for extra in [0usize, 4, 5, 64, 8192] {
+                let whole = &big[..(1usize << 32) + extra];
+                let res = parse_tls_message_handshake(whole);
+                ctx.eval();
+                ctx.count("4gib.cases");
+                ctx.shape(&("4gib", variant, extra));
+                let good = matches!(&res, Ok((rem, m)) if *m == exp && rem.len() == whole.len() - enc.len());
+                if !good {
+                    ctx.violation(format!("c04:roundtrip:{}:4GiB-buffer", v.variant_name()), json!({"variant": v.variant_name(), "buffer_len": whole.len(), "outcome": classify(&res).show(), "message_hex": hex_short(&enc)}));
+                }
+            }
+        }
     });
 
     // ------------------------------------------------ must-reject catalogue
